@@ -14,6 +14,8 @@ def region_runs(q_plain, q_asan, t_plain, t_asan, exhaustive=True):
     return runs
 
 
+MATRIX_MON = {"mon_matrix": {"sources": ["mon_matrix.c", "vf.c"]}}
+
 PROPS = {
     "C05": dict(
         level="exploration", monitors=REGION_MON,
@@ -55,4 +57,42 @@ PROPS = {
         floors={"any": {"ops": 1000, "translate_partly_clipped": 20, "translate_wholly_clipped": 20, "from_image_cases": 50}},
         assumptions=["bitmap / 64-bit models written from the statement"],
     ),
+    "C11": dict(
+        level="exploration", monitors=MATRIX_MON,
+        runs=[dict(name="calls-plain", monitor="mon_matrix", flavour="plain", cases={"quick": 20000, "thorough": 2000000}),
+              dict(name="calls-ubsan", monitor="mon_matrix", flavour="ubsan", cases={"quick": 2000, "thorough": 100000})],
+        ubsan_attr=[r"pixman-matrix\.c:"],
+        rule="each case = 200 calls drawn from transform_point, point_3d, multiply (all aliasing patterns), scale/rotate/translate (forward and/or reverse), bounds, invert, "
+             "fixed<->double conversions; entries and vectors from {0, +-e, +-1, +-2^k, +-2^k+-e, INT32_MIN/MAX, random of several magnitudes}, homogeneous divisors engineered to 0, +-2^k, exactly -2^32 (16.16) "
+             "and around 65536, affine results engineered within a few units of +-2^31; every result is compared with exact __int128 rational arithmetic "
+             "(nearest, either neighbour on an exact tie; +-1 unit when |w| >= 65536; multiply 1.5 units; invert 1 unit for |entries| <= 2^8 and |det| >= 2^-8); an abort kills the monitor and is attributed to the in-flight call; "
+             "signed-overflow / float-cast reports inside pixman-matrix.c are attributed here; a cell = (function, matrix class, vector class, w class, representable?, tie?)",
+        floors={"any": {"point_calls": 10000, "point_exact_ties": 20, "invert_singular_inputs": 50, "invert_well_conditioned": 50, "bounds_box_overflows_int16": 5, "directed_cases": 9}},
+        assumptions=["__int128 rational reference written from the statement", "gcc arithmetic right shift of negative values (as pixman itself assumes)"],
+    ),
 }
+
+# ---------------------------------------------------------------- MANIFEST texts
+MANIFEST_TEXT = {
+    "C05": dict(
+        technique="history-vs-model runtime monitor (bitmap point-set model) + ASan; exhaustive 4x3-grid sub-scope",
+        level_text="Exploration: every region operation of random 40-step programs (both widths, every aliasing pattern, windows at the coordinate limits) is compared point by point with a bitmap model; "
+                   "the thorough tier additionally enumerates all 4096 regions of a 4x3 grid pairwise. Held-on-observed, not a proof; right level because the quantifier (all region pairs) is unbounded and the code is pure sequential C.",
+        level_note="trusted: the 60-line bitmap model and canonicaliser in harness/mon_region.c; contains_point as observation channel; gcc sanitizer runtimes"),
+    "C06": dict(
+        technique="history-vs-model runtime monitor (canonical list computed from a bitmap) + equal() on all pool pairs",
+        level_text="Exploration: after every operation the rectangle list must be bit-identical to the canonical banded list derived independently from the model bitmap, with tight extents and correct storage form; "
+                   "equal() is checked against set equality on all pool pairs including empties made by different routes; exhaustive on the 4x3 grid in the thorough tier.",
+        level_note="trusted: canonical_generic() in harness/mon_region.c written from the statement; one known finding (translate clamping does not re-merge bands) is keyed narrowly"),
+    "C07": dict(
+        technique="model-based runtime monitor (bitmap / 64-bit translate model / a1 bitmap) + UBSan attribution inside *_translate",
+        level_text="Exploration: contains_point (+member box), contains_rectangle on edge-biased query boxes, descriptors, translate past the 16/32-bit limits and init_from_image on adversarial a1 bitmaps are each compared with the point-set model.",
+        level_note="trusted: bitmap model; signed-overflow reports are attributed by source function"),
+    "C11": dict(
+        technique="reference-model runtime monitor (exact __int128 rationals) + abort attribution + UBSan in pixman-matrix.c",
+        level_text="Exploration: 10^6..10^8 calls with magnitude-extreme and engineered operands are compared with exact rational arithmetic (rounding, overflow reporting, no abort).",
+        level_note="trusted: the __int128 reference in harness/mon_matrix.c; tolerances exactly those of the statement (exact for |w|<65536, 1 unit otherwise; multiply 1.5 units; invert 1 unit for well-conditioned input)"),
+}
+
+NOT_CLAIMED = {p: "monitor not built yet in this round (design in DESIGN.md section 6); no claim is made" for p in
+               ["C%02d" % i for i in range(1, 21)]}
